@@ -72,8 +72,21 @@ func init() {
 			}
 			// the record types with a value handler: longer symbolic values
 			for _, rr := range []string{"A", "AAAA", "CNAME", "MX", "PTR", "TXT", "HTTPS", "SVCB", "SRV"} {
-				for n := 0; n <= valMax; n++ {
-					for alpha := 0; alpha < 3; alpha++ {
+				top := valMax
+				if rr == "SRV" && top < 7 {
+					top = 7 // four fields: the shortest accepted SRV value has 7 bytes
+				}
+				if rr == "SRV" {
+					top = 9 // room for a malformed number such as 0x1 or 011 in one of the four fields (numeric alphabets only)
+				}
+				for n := 0; n <= top; n++ {
+					for alpha := 0; alpha < 5; alpha++ {
+						if alpha >= 3 && rr != "MX" && rr != "SRV" && rr != "SVCB" && rr != "HTTPS" {
+							continue // the numeric alphabets are for the records with numeric fields
+						}
+						if alpha < 3 && n > 7 {
+							continue
+						}
 						jobs = append(jobs, Job{Pkg: "rules", Func: "verifC10Normal", Args: []int64{noerror, indexOf(kw["rr"], rr), int64(n), int64(alpha)}})
 					}
 				}
@@ -93,7 +106,7 @@ func init() {
 		ContractStubs: "netip.ParseAddr on symbolic text returns an arbitrary address; concrete address literals are parsed natively",
 		MustReach: []string{"c10.accepted", "c10.rejected", "c10.literal"},
 		Bounds: map[string]string{
-			"quick":    "short form: 0..5 symbolic bytes over {a,1,.,:,-,;} and {a,A,1,.,-}, 7..8 bytes over the letters of the four keywords; normal form: every response-code keyword and every record-type keyword of the dns tables (plus junk, lower-case and empty) with a short value, and for the nine record types with a value parser a symbolic value of 0..5 bytes over three alphabets (digits, dots, colons, blanks, '=', letters)",
+			"quick":    "short form: 0..5 symbolic bytes over {a,1,.,:,-,;} and {a,A,1,.,-}, 7..8 bytes over the letters of the four keywords; normal form: every response-code keyword and every record-type keyword of the dns tables (plus junk, lower-case and empty) with a short value, and for the nine record types with a value parser a symbolic value of 0..5 bytes over three alphabets (digits, dots, colons, blanks, '=', letters) and, for MX/SRV/SVCB/HTTPS, two numeric alphabets ({0,x,1,space,a} and {1,9,space,0,.}) with the numeric fields checked against a decimal reference",
 			"thorough": "short form up to 8 bytes, values up to 8 bytes",
 		},
 		Outside:     []string{"values longer than the bound", "netip's text syntax: ParseAddr is a contract stub on symbolic input (error / some IPv4 / some IPv6, a deterministic function of the bytes)", "NewNetworkRule's option splitting in front of loadDNSRewrite (C12)"},
